@@ -8,5 +8,7 @@ CONSTANTS
   AllowLeave = FALSE
   AllowRelease = FALSE
   TsFix = TRUE
+  Late = {}
+  NeedKnown = FALSE
 INVARIANTS SingleNewestOwner
 CHECK_DEADLOCK FALSE
